@@ -18,6 +18,12 @@ def boundary_values(ver):
             v = maxint(ver) - 2 ** k + d
             if 0 <= v <= maxint(ver):
                 s.add(v)
+    if ver == 6:
+        # the IPv4-compatible and IPv4-mapped blocks and the integers that also fit IPv4
+        for b in (0, 0xffff00000000, 0xfffe00000000, 0x1000000000000):
+            for d in (-1, 0, 1, 0x01020304, 0xffffffff, 0x100000000):
+                if 0 <= b + d <= maxint(6):
+                    s.add(b + d)
     return sorted(s)
 
 
